@@ -287,6 +287,26 @@ func genC04(p *Pkg) (map[string]string, error) {
 		{"fn_hasOwnPropertyStr", "funcObject", "hasOwnPropertyStr"},
 		{"fn_stringKeys", "funcObject", "stringKeys"},
 		{"fn_iterateStringKeys", "funcObject", "iterateStringKeys"},
+		// second deepening round (Tie2.lean): typed-array delete (4b86f46), arguments key enumeration (52d9686), Go map wrapper (GoMap.lean)
+		{"ta_deleteStr", "typedArrayObject", "deleteStr"},
+		{"ta_deleteIdx", "typedArrayObject", "deleteIdx"},
+		{"args_stringKeys", "argumentsObject", "stringKeys"},
+		{"args_iterateStringKeys", "argumentsObject", "iterateStringKeys"},
+		{"args_propIterNext", "argumentsPropIter", "next"},
+		{"gm_getStr0", "objectGoMapSimple", "_getStr"},
+		{"gm_hasStr0", "objectGoMapSimple", "_hasStr"},
+		{"gm_getStr", "objectGoMapSimple", "getStr"},
+		{"gm_getOwnPropStr", "objectGoMapSimple", "getOwnPropStr"},
+		{"gm_setOwnStr", "objectGoMapSimple", "setOwnStr"},
+		{"gm_setForeignStr", "objectGoMapSimple", "setForeignStr"},
+		{"gm_setForeignIdx", "objectGoMapSimple", "setForeignIdx"},
+		{"gm_hasOwnPropertyStr", "objectGoMapSimple", "hasOwnPropertyStr"},
+		{"gm_defineOwnPropertyStr", "objectGoMapSimple", "defineOwnPropertyStr"},
+		{"gm_deleteStr", "objectGoMapSimple", "deleteStr"},
+		{"gm_stringKeys", "objectGoMapSimple", "stringKeys"},
+		{"gm_iterateStringKeys", "objectGoMapSimple", "iterateStringKeys"},
+		{"gm_propIterNext", "gomapPropIter", "next"},
+		{"host_checkPropertyDescr", "Runtime", "checkHostObjectPropertyDescr"},
 	}
 	for _, f := range singles {
 		c04Erase = !strings.HasPrefix(f.lean, "disp_")
